@@ -65,6 +65,9 @@ def plan(tier, seed):
     # valid programs: strict and non-strict render identically (metamorphic); reuse the C01 / C04 grammars
     from checks import C01, C04
     valid = C01.plan('quick', seed)['families'][0]['jobs'] + C04.plan('quick', seed)['families'][0]['jobs']
+    # only programs that need nothing but the template text and its bindings (this harness compiles with its own
+    # options: programs that come with template options or extra builtins are C01's / C04's business)
+    valid = [j for j in valid if set(j) <= {'prog', 'vars', 'label'}]
     rnd.shuffle(valid)
     for j in valid[:40 if quick else 400]:
         jobs.append({'prog': j['prog'], 'vars': j['vars'], 'label': 'valid:' + j.get('label', '')})
